@@ -1449,3 +1449,31 @@ def _impl_comp(inp):
 Op("composition", _gen_comp, _impl_comp,
    lambda inp: f"comp_scenario {lit_msgss(inp[0])} {inp[1]}%nat {inp[2]}%nat {inp[3]}%nat {z(inp[4])}",
    lambda inp: sum(len(x) for x in inp[0]) > 3)
+
+
+# ---------------------------------------------------------------------------------------------- getters (Model/Getters.v)
+def _impl_getters(ms):
+    s = mk_abs(ms)
+    out = ["T" if s.is_empty() else "F", "T" if s.is_channel_consistent() else "F"]
+    try:
+        out.append(str(s.get_sequence_channel()))
+    except Exception as e:
+        out.append(show_exc(e))
+    out.append(str(round(s.get_sequence_duration_relation() * PPQN)))
+    k = s.rel.get_key_signature_guess()
+    out.append("~" if k is None else k.value)
+    out.append(show_msgs([from_message(m) for _, m in s.get_message_times_of_type([MT.TIME_SIGNATURE, MT.KEY_SIGNATURE])]))
+    return "/".join(out)
+
+
+Op("getters", lambda r: G.gen_abs_wf(r, chans=r.choice([[0], [1], [0, 1]]), pitches=r.choice([[60, 62, 64, 65, 67], [61, 63, 66, 68, 70], G.PITCHES])),
+   _impl_getters, lambda ms: f"show_getters {INS(ms)}", lambda ms: len(ms) > 2)
+
+
+def _impl_digitise(v):
+    from scoda.misc import util
+    return f"{util.digitise_velocity(v)},{util.velocity_from_bin(v % 9)}"
+
+
+Op("digitise", lambda r: r.randint(0, 127), _impl_digitise,
+   lambda v: f"(show_Z (digitise_velocity {v}) ++ \",\" ++ show_Z (velocity_from_bin {v % 9}))")
